@@ -24,7 +24,7 @@ fn relations(sp: &Sprite, ase: &asefile::AsepriteFile) -> Result<u64, Violation>
         if full.width() != tw || full.height() != th * ts.tile_count() {
             return Err(Violation::new("tileset-image-dim", format!("tileset {} image is {}x{}, expected {}x{}", ts.id(), full.width(), full.height(), tw, th * ts.tile_count())));
         }
-        for i in 0..ts.tile_count() {
+        for i in crate::observe::tile_sample(ts.tile_count()) {
             let ti = ts.tile_image(i);
             if ti.width() != tw || ti.height() != th {
                 return Err(Violation::new("tile-image-dim", format!("tile {} of tileset {} is {}x{}, tile size {}x{}", i, ts.id(), ti.width(), ti.height(), tw, th)));
@@ -53,15 +53,15 @@ fn relations(sp: &Sprite, ase: &asefile::AsepriteFile) -> Result<u64, Violation>
                 return Err(Violation::new("tilemap-image-dim", format!("tilemap image {}x{} for canvas {}x{}", img.width(), img.height(), ase.width(), ase.height())));
             }
             let ts = tm.tileset();
-            // cache tile images
-            let tiles: Vec<image::RgbaImage> = (0..ts.tile_count()).map(|i| ts.tile_image(i)).collect();
+            // cache the images of the tiles that are looked up (tile_image is linear in the tileset size)
+            let mut tiles: std::collections::HashMap<u32, image::RgbaImage> = std::collections::HashMap::new();
             for y in 0..img.height() {
                 for x in 0..img.width() {
                     let id = tm.tile(x / tw, y / th).id();
                     if id >= ts.tile_count() {
                         return Err(Violation::new("tile-id-range", format!("tile({},{}) reports id {} >= tile count {}", x / tw, y / th, id, ts.tile_count())));
                     }
-                    let tp = tiles[id as usize].get_pixel(x % tw, y % th).0;
+                    let tp = tiles.entry(id).or_insert_with(|| ts.tile_image(id)).get_pixel(x % tw, y % th).0;
                     let ea = opacity_product(tp[3], op);
                     let got = img.get_pixel(x, y).0;
                     let ok = if ea == 0 { got[3] == 0 } else { got == [tp[0], tp[1], tp[2], ea] };
@@ -93,6 +93,7 @@ pub fn run(ctx: &Ctx) -> i32 {
         cfg.extremes = false;
         cfg.groups = i % 5 == 0;
         cfg.links = false;
+        cfg.big = true;
         cfg.max_layers = 4;
         cfg.max_frames = 3;
         cfg.max_w = 40;
